@@ -164,10 +164,33 @@ RULES = [
 def props_of(key):
     rel, _, rest = key.partition('::')
     ps = set()
+    if re.search(r'impl (core :: )?fmt :: (Debug|Display) for ', rest):
+        return ps            # formatting for humans: no property is about it
     for fre, cre, pr in RULES:
         if re.fullmatch(fre, rel) and re.fullmatch(cre, rest):
             ps |= set(pr.split())
     return ps
+
+
+def all_tokens(repo):
+    toks = []
+    for rel in FILES:
+        path = os.path.join(repo, 'src', rel)
+        if os.path.exists(path):
+            text = re.split(r'#\[cfg\(test\)\]\s*mod\s+\w+', open(path, newline='').read().replace('\r\n', '\n'))[0]
+            toks += TOKEN.findall(strip_comments(text))
+    return toks
+
+
+def unreferenced_addition(key, toks):
+    """a function that is new, is an inherent method or free function (no trait dispatch can reach it
+    implicitly) and whose name occurs nowhere else in the library: it cannot influence existing behaviour"""
+    rel, _, rest = key.partition('::')
+    ctx, _, fn = rest.rpartition('::')
+    fn = re.sub(r'#\d+$', '', fn)
+    if ' for ' in ctx or ctx.startswith('trait') or 'macro_rules!' in ctx:
+        return False
+    return toks.count(fn) <= 1
 
 
 def check(repo, golden_path, prop):
@@ -176,15 +199,22 @@ def check(repo, golden_path, prop):
     golden = json.load(open(golden_path))
     now = table(repo)
     changed = []
+    ignored = []
     checked = 0
+    toks = None
     for key in sorted(set(golden) | set(now)):
         if prop not in props_of(key):
             continue
         checked += 1
         if golden.get(key) != now.get(key):
             what = 'changed' if key in golden and key in now else ('removed' if key in golden else 'added')
+            if what == 'added':
+                toks = toks if toks is not None else all_tokens(repo)
+                if unreferenced_addition(key, toks):
+                    ignored.append(f'{key} (added, referenced nowhere)')
+                    continue
             changed.append(f'{key} ({what})')
-    return {'checked': checked, 'changed': changed}
+    return {'checked': checked, 'changed': changed, 'ignored_additions': ignored}
 
 
 if __name__ == '__main__':
